@@ -52,6 +52,7 @@ enum Status {
     Runnable,
     BlockedMutex(usize),
     BlockedJoin(usize),
+    BlockedCondvar(usize),
     Finished,
 }
 
@@ -224,10 +225,17 @@ pub fn point(kind: u64) {
 
 /// Block the calling thread with `status`; returns when it has been made runnable and chosen.
 fn block(status: Status, kind: u64) {
+    block_after(status, kind, |_| {})
+}
+
+/// As `block`, but `pre` edits the scheduler state in the same critical section (a condition
+/// variable releases its mutex and starts waiting atomically).
+fn block_after(status: Status, kind: u64, pre: impl FnOnce(&mut State)) {
     let me = current_thread().expect("block outside simulation");
     let mut g = lock_state();
     {
         let st = g.as_mut().unwrap();
+        pre(st);
         st.threads[me] = status;
         match st.choose(me, kind) {
             Some(next) => {
@@ -566,6 +574,109 @@ pub mod sync {
     impl<T> std::ops::DerefMut for MutexGuard<'_, T> {
         fn deref_mut(&mut self) -> &mut T {
             self.inner.as_mut().unwrap()
+        }
+    }
+
+    /// Condition variable with the std API (no timeouts).  Releasing the mutex and starting to
+    /// wait is one scheduler step, so no wake-up is lost; `notify_one` wakes the waiting thread
+    /// with the lowest index; there are no spurious wake-ups.
+    pub struct Condvar {
+        id: std::sync::atomic::AtomicUsize,
+        real: std::sync::Condvar,
+    }
+    impl Condvar {
+        pub const fn new() -> Self {
+            Condvar { id: std::sync::atomic::AtomicUsize::new(0), real: std::sync::Condvar::new() }
+        }
+        fn id(&self) -> usize {
+            let cur = self.id.load(std::sync::atomic::Ordering::SeqCst);
+            if cur != 0 {
+                return cur;
+            }
+            let n = NEXT_MUTEX_ID.fetch_add(1, std::sync::atomic::Ordering::SeqCst);
+            match self.id.compare_exchange(0, n, std::sync::atomic::Ordering::SeqCst, std::sync::atomic::Ordering::SeqCst) {
+                Ok(_) => n,
+                Err(v) => v,
+            }
+        }
+        pub fn wait<'a, T>(&self, mut guard: MutexGuard<'a, T>) -> LockResult<MutexGuard<'a, T>> {
+            if !guard.simulated || !in_simulation() {
+                let inner = guard.inner.take().unwrap();
+                return match self.real.wait(inner) {
+                    Ok(g) => {
+                        guard.inner = Some(g);
+                        Ok(guard)
+                    }
+                    Err(p) => {
+                        guard.inner = Some(p.into_inner());
+                        Err(PoisonError::new(guard))
+                    }
+                };
+            }
+            let mutex = guard.mutex;
+            let mid = mutex.id();
+            let cid = self.id();
+            // real unlock first (poisons iff panicking, like std), and keep the guard's Drop from
+            // releasing the scheduler-level ownership a second time
+            guard.inner.take();
+            guard.simulated = false;
+            drop(guard);
+            block_after(Status::BlockedCondvar(cid), 6, |st| {
+                st.owner.remove(&mid);
+                for s in st.threads.iter_mut() {
+                    if *s == Status::BlockedMutex(mid) {
+                        *s = Status::Runnable;
+                    }
+                }
+            });
+            mutex.lock()
+        }
+        pub fn wait_while<'a, T, F: FnMut(&mut T) -> bool>(&self, mut guard: MutexGuard<'a, T>, mut condition: F) -> LockResult<MutexGuard<'a, T>> {
+            while condition(&mut *guard) {
+                guard = self.wait(guard)?;
+            }
+            Ok(guard)
+        }
+        fn wake(&self, all: bool) {
+            if !in_simulation() {
+                if all {
+                    self.real.notify_all()
+                } else {
+                    self.real.notify_one()
+                }
+                return;
+            }
+            let cid = self.id();
+            {
+                let mut g = lock_state();
+                if let Some(st) = g.as_mut() {
+                    for s in st.threads.iter_mut() {
+                        if *s == Status::BlockedCondvar(cid) {
+                            *s = Status::Runnable;
+                            if !all {
+                                break;
+                            }
+                        }
+                    }
+                }
+            }
+            point(7);
+        }
+        pub fn notify_one(&self) {
+            self.wake(false)
+        }
+        pub fn notify_all(&self) {
+            self.wake(true)
+        }
+    }
+    impl Default for Condvar {
+        fn default() -> Self {
+            Condvar::new()
+        }
+    }
+    impl std::fmt::Debug for Condvar {
+        fn fmt(&self, f: &mut std::fmt::Formatter<'_>) -> std::fmt::Result {
+            f.write_str("simsched::Condvar")
         }
     }
 
